@@ -220,14 +220,14 @@ func Items() []Item {
 	it := []Item{
 		{ID: "w1", Quick: true, Core: true, Why: "1 plain A, explicit TTL", Lines: []Line{A("www.example.com", "192.0.2.1", "300", "", "")}},
 		{ID: "w2aa", Quick: true, Core: true, Why: "2 default TTL, located: second candidate for an aa client", Lines: []Line{A("www.example.com", "192.0.2.2", "", "aa", "")}},
-		{ID: "w3bb", Core: true, Why: "3 other location", Lines: []Line{A("www.example.com", "192.0.2.3", "300", "bb", "")}},
+		{ID: "w3bb", Why: "3 other location", Lines: []Line{A("www.example.com", "192.0.2.3", "300", "bb", "")}},
 		{ID: "w6", Why: "4 AAAA", Lines: []Line{A("www.example.com", "2001:db8::1", "300", "", "")}},
 		{ID: "w0", Why: "5 weight 0", Lines: []Line{A("www.example.com", "192.0.2.9", "300", "", "0")}},
 		{ID: "cn", Quick: true, Core: true, Why: "6 CNAME", Lines: []Line{CNAME("c.example.com", "www.example.com", "300", "")}},
 		{ID: "wild", Quick: true, Core: true, Why: "7 wildcard under w", Lines: []Line{A("*.w.example.com", "192.0.2.10", "300", "", "")}},
 		{ID: "wildaa", Quick: true, Core: true, Why: "8 located wildcard", Lines: []Line{A("*.w.example.com", "192.0.2.11", "300", "aa", "")}},
-		{ID: "wildbb", Core: true, Why: "8' wildcard of the other location (visible through the closer map of item 30)", Lines: []Line{A("*.w.example.com", "192.0.2.14", "300", "bb", "")}},
-		{ID: "xw", Core: true, Why: "9 own record beats the wildcard", Lines: []Line{A("x.w.example.com", "192.0.2.12", "300", "", "")}},
+		{ID: "wildbb", Why: "8' wildcard of the other location (visible through the closer map of item 30)", Lines: []Line{A("*.w.example.com", "192.0.2.14", "300", "bb", "")}},
+		{ID: "xw", Why: "9 own record beats the wildcard", Lines: []Line{A("x.w.example.com", "192.0.2.12", "300", "", "")}},
 		{ID: "wildapex", Quick: true, Core: true, Why: "10 wildcard at the zone cut; must not reach into sub. or deleg.", Lines: []Line{TXT("*.example.com", "wild", "300", "")}},
 		{ID: "ab", Why: "11 empty non-terminal b", Lines: []Line{A("a.b.example.com", "192.0.2.20", "300", "", "")}},
 		{ID: "sub", Quick: true, Core: true, Why: "12 nested authoritative zone", Lines: []Line{Dot("sub.example.com", "192.0.2.54", "a", "3600", "")}},
@@ -241,13 +241,13 @@ func Items() []Item {
 		{ID: "https", Why: "26 HTTPS with root target; owner-address additional processing", Lines: []Line{HTTPS("www.example.com", ".", "300", "", "1", "alpn=h2")}},
 		// 28: byte-order neighbours for the v2 closest-key walk, same-name-other-location neighbours
 		{ID: "na", Quick: true, Core: true, Why: "28 neighbour a", Lines: []Line{A("a.example.com", "192.0.2.81", "300", "", "")}},
-		{ID: "nb", Core: true, Why: "28 neighbour b", Lines: []Line{A("b.example.com", "192.0.2.82", "300", "", "")}},
+		{ID: "nb", Why: "28 neighbour b", Lines: []Line{A("b.example.com", "192.0.2.82", "300", "", "")}},
 		{ID: "na-", Why: "28 neighbour a-", Lines: []Line{A("a-.example.com", "192.0.2.83", "300", "", "")}},
 		{ID: "na0", Why: "28 neighbour a0", Lines: []Line{A("a0.example.com", "192.0.2.84", "300", "", "")}},
 		{ID: "naa", Why: "28 neighbour aa", Lines: []Line{A("aa.example.com", "192.0.2.85", "300", "", "")}},
 		{ID: "naba", Quick: true, Core: true, Why: "28 neighbour ab.a (below a)", Lines: []Line{A("ab.a.example.com", "192.0.2.86", "300", "", "")}},
 		{ID: "na_aa", Quick: true, Core: true, Why: "28 a tagged aa", Lines: []Line{A("a.example.com", "192.0.2.87", "300", "aa", "")}},
-		{ID: "na_bb", Core: true, Why: "28 a tagged bb", Lines: []Line{A("a.example.com", "192.0.2.88", "300", "bb", "")}},
+		{ID: "na_bb", Why: "28 a tagged bb", Lines: []Line{A("a.example.com", "192.0.2.88", "300", "bb", "")}},
 		{ID: "ecs", Quick: true, Core: true, ECSMap: true, Why: "29 client-subnet map",
 			Lines:     []Line{Map('8', "example.com", "c1"), Map('8', "*.example.com", "c1"), Net("aa", "10.0.0.0/8", "c1"), Net("bb", "2001:db8::/32", "c1")},
 			MayLocate: map[string][]string{ClEcsA: {"aa"}, ClEcs6: {"bb"}}},
@@ -266,7 +266,7 @@ func Items() []Item {
 		{ID: "no_m1nets", Quick: true, Core: true, Why: "C03 surrounding: a map that names select but that holds no subnet at all (its lookups must not stray into a neighbouring map)",
 			Remove: []string{"%aa,10.0.0.0/8,m1", "%bb,192.168.0.0/16,m1"}},
 		{ID: "d6m1", Quick: true, Core: true, Why: "34 lone IPv6 default route in the applicable map", Lines: []Line{Net("cc", "::/0", "m1")}, MayLocate: everyClient("cc")},
-		{ID: "d4m1", Core: true, Why: "34 IPv4 default route in the applicable map", Lines: []Line{Net("cc", "0.0.0.0/0", "m1")}, MayLocate: everyClient("cc")},
+		{ID: "d4m1", Why: "34 IPv4 default route in the applicable map", Lines: []Line{Net("cc", "0.0.0.0/0", "m1")}, MayLocate: everyClient("cc")},
 		{ID: "d6c1", Quick: true, Core: true, Why: "34 IPv6 default route in a map sorting before the applicable one (the client-subnet map when 29 is present)", Lines: []Line{Net("cc", "::/0", "c1")}, MayLocate: everyClient("cc")},
 		{ID: "d4c1", Why: "34 IPv4 default route in c1", Lines: []Line{Net("cc", "0.0.0.0/0", "c1")}, MayLocate: everyClient("cc")},
 		{ID: "d6z1", Why: "34 IPv6 default route in a map sorting after the applicable one", Lines: []Line{Net("cc", "::/0", "z1")}, MayLocate: everyClient("cc")},
